@@ -62,10 +62,22 @@ def escaped_set(facts, name):
             vals = None
             for cl in char_locals:
                 v = st.get("_%d" % cl)
-                if v is not None:
+                if v is not None and all(re.match(r"^-?\d+$", x) for x in v):
                     vals = v
             if vals is None:
-                other[0] = True
+                # the test may live in a predicate helper (`if needs_escape(c) { push('\\') }`): use the helper's true-set
+                summar = None
+                for k, v in st.items():
+                    if v == frozenset(["true"]) and re.match(r"^_\d+$", k):
+                        ds = b.defs().get(int(k[1:]), [])
+                        if len(ds) == 1 and ds[0][0] == "call" and facts.has(b.callee(ds[0][3])):
+                            ts_ = predicate_true_set(facts, b.callee(ds[0][3]))
+                            if ts_ is not None:
+                                summar = ts_ if summar is None else (summar & ts_)
+                if summar is None:
+                    other[0] = True
+                else:
+                    got.update(summar)
             else:
                 for x in vals:
                     try:
@@ -74,6 +86,42 @@ def escaped_set(facts, name):
                         pass
     vf.run(on_term=on_term)
     return got, other[0]
+
+
+def predicate_true_set(facts, name):
+    """code points for which the local predicate `fn(char) -> bool` returns true, or None when that cannot be decided"""
+    pb = facts.body(name)
+    if pb.argc != 1 or pb.local_ty(1) != "char" or pb.local_ty(0) != "bool":
+        return None
+    vf = VarFlow(facts, pb, extra_locals=[0, 1])
+    out = set()
+    unknown = [False]
+
+    def on_term(bb, t, st):
+        if t["k"] != "return":
+            return
+        r = st.get("_0")
+        if r == frozenset(["false"]):
+            return
+        v = st.get("_1")
+        if v is not None:
+            for x in v:
+                try:
+                    out.add(chr(int(x)))
+                except ValueError:
+                    unknown[0] = True
+            return
+        iv = st.get("_1#iv")
+        if iv is not None and sum(hi - lo + 1 for lo, hi in iv) <= 4096:
+            for lo, hi in iv:
+                for cp in range(lo, hi + 1):
+                    out.add(chr(cp))
+            return
+        unknown[0] = True
+    vf.run(on_term=on_term)
+    if unknown[0]:
+        return None
+    return out
 
 
 def run(chk):
